@@ -43,7 +43,33 @@ const (
 	kindNR12   = "nr12"   // Mixer[elem], neither input has a Reset method
 	kindNested = "nested" // Mixer[elem] whose input 1 is itself a Mixer over (A, C); input 2 is B
 	kindIntIt  = "intit"  // WrapIntSlice alone against a slice model (word over H, N, R, C)
+
+	// Inputs with the HasNext/Next imparity that the Iterator contract (iterator.go) allows at the end
+	// of a collection: after its last element the input still answers HasNext()=true while Next()
+	// gives (zero, false) - a paged listing whose last page is empty, a last element that was removed
+	// between the two calls. kase.Phantom says for how many failing Next calls (<0: for ever).
+	kindPh1      = "ph1"      // Mixer[elem], both resettable, input 1 has such a tail
+	kindPh2      = "ph2"      // ... input 2
+	kindPh12     = "ph12"     // ... both inputs
+	kindPhNested = "phnested" // like nested, all three leaves A, C, B have such a tail
 )
+
+func phantomKind(kind string) bool {
+	return kind == kindPh1 || kind == kindPh2 || kind == kindPh12 || kind == kindPhNested
+}
+
+// phantomInput tells whether leaf src (1 = A, 2 = B, 3 = C) of the kind has the phantom tail.
+func phantomInput(kind string, src int) bool {
+	switch kind {
+	case kindPh1:
+		return src == 1
+	case kindPh2:
+		return src == 2
+	case kindPh12, kindPhNested:
+		return true
+	}
+	return false
+}
 
 type kase struct {
 	A     []int  `json:"a"`
@@ -53,6 +79,9 @@ type kase struct {
 	Kind  string `json:"kind"`
 	Word  string `json:"word"`  // H = HasNext, N = Next, R = Reset (intit: C = Close)
 	Drain bool   `json:"drain"` // after the word: read to the end and probe the exhausted mixer
+	// kinds ph*: number of failing Next calls after the last element during which the input keeps
+	// answering HasNext()=true (<0: for ever)
+	Phantom int `json:"phantom,omitempty"`
 }
 
 var selNames = []string{"lt", "le", "true", "false"}
@@ -88,6 +117,8 @@ type stats struct {
 	seen       map[string]int // signatures reported by this worker (nil: report everything)
 	repeats    int64
 	lateResets int64
+	imparity   int64 // Next()=(zero,false) of an input right after its HasNext()=true
+	secondPass int64 // Reset of the exhausted mixer followed by a second complete pass
 }
 
 func (s *stats) merge(o *stats) {
@@ -103,6 +134,8 @@ func (s *stats) merge(o *stats) {
 	s.intitCalls += o.intitCalls
 	s.repeats += o.repeats
 	s.lateResets += o.lateResets
+	s.imparity += o.imparity
+	s.secondPass += o.secondPass
 }
 
 // ---------------------------------------------------------------------------------------------
@@ -190,6 +223,34 @@ func (s *sliceSrc[E]) Next() (E, bool) {
 func (s *sliceSrc[E]) Close() error { return nil }
 func (s *sliceSrc[E]) Reset() error { s.i = 0; return nil }
 
+// tailSrc is a slice source whose HasNext keeps answering true after the last element for `phantom`
+// more failing Next calls (<0: for ever); Next never hands out anything but the elements of the slice.
+// Reset starts the listing - and its tail - again.
+type tailSrc[E any] struct {
+	sliceSrc[E]
+	phantom  int
+	failed   int
+	lastH    bool   // the previous call on this source was HasNext()=true
+	imparity *int64 // Next()=(zero,false) right after HasNext()=true
+}
+
+func (s *tailSrc[E]) HasNext() bool {
+	s.lastH = s.i < len(s.s) || s.phantom < 0 || s.failed < s.phantom
+	return s.lastH
+}
+func (s *tailSrc[E]) Next() (E, bool) {
+	e, ok := s.sliceSrc.Next()
+	if !ok {
+		s.failed++
+		if s.lastH {
+			*s.imparity++
+		}
+	}
+	s.lastH = false
+	return e, ok
+}
+func (s *tailSrc[E]) Reset() error { s.failed, s.lastH = 0, false; return s.sliceSrc.Reset() }
+
 // probe is the source-protocol monitor around one input of a mixer. It has no Reset method; probeR
 // adds it. A pass is the time between two Reset calls made by the harness on the outermost mixer.
 type probe[E any] struct {
@@ -272,7 +333,7 @@ type rig[E comparable] struct {
 	total      int
 }
 
-func build[E comparable](k kase, mk func(src, idx, v int) E, val func(E) int, leaf func([]E) iterable.Iterator[E]) *rig[E] {
+func build[E comparable](k kase, mk func(src, idx, v int) E, val func(E) int, leaf func(src int, s []E) iterable.Iterator[E]) *rig[E] {
 	conv := func(src int, s []int) []E {
 		out := make([]E, len(s))
 		for i, v := range s {
@@ -300,20 +361,20 @@ func build[E comparable](k kase, mk func(src, idx, v int) E, val func(E) int, le
 	r.total = len(a) + len(b)
 	r.top = &iterable.Mixer[E]{}
 	switch k.Kind {
-	case kindNested:
+	case kindNested, kindPhNested:
 		c := conv(3, k.C)
 		mc := &sliceMod[E]{s: c}
 		r.total += len(c)
 		inner := &iterable.Mixer[E]{}
-		inner.Init(sf, wrap("A", leaf(clone(a)), len(a), true, true), wrap("C", leaf(clone(c)), len(c), true, true))
-		r.top.Init(sf, wrap("inner(A,C)", inner, len(a)+len(c), true, false), wrap("B", leaf(clone(b)), len(b), true, true))
+		inner.Init(sf, wrap("A", leaf(1, clone(a)), len(a), true, true), wrap("C", leaf(3, clone(c)), len(c), true, true))
+		r.top.Init(sf, wrap("inner(A,C)", inner, len(a)+len(c), true, false), wrap("B", leaf(2, clone(b)), len(b), true, true))
 		r.model = &mergeMod[E]{sf: msf, m1: &mergeMod[E]{sf: msf, m1: ma, m2: mc}, m2: mb}
 		r.leaves = []*sliceMod[E]{ma, mb, mc}
 		r.resettable = true
 	default:
 		r1 := k.Kind != kindNR1 && k.Kind != kindNR12
 		r2 := k.Kind != kindNR2 && k.Kind != kindNR12
-		r.top.Init(sf, wrap("A", leaf(clone(a)), len(a), r1, true), wrap("B", leaf(clone(b)), len(b), r2, true))
+		r.top.Init(sf, wrap("A", leaf(1, clone(a)), len(a), r1, true), wrap("B", leaf(2, clone(b)), len(b), r2, true))
 		r.model = &mergeMod[E]{sf: msf, m1: ma, m2: mb}
 		r.leaves = []*sliceMod[E]{ma, mb}
 		r.resettable = r1 && r2
@@ -340,21 +401,29 @@ func runCase(k kase, st *stats) *vio {
 		return runIntIt(k, st)
 	case kindWIS:
 		r := build[int](k, func(_, _, v int) int { return v }, func(v int) int { return v },
-			func(s []int) iterable.Iterator[int] { return iterable.WrapIntSlice(s) })
+			func(_ int, s []int) iterable.Iterator[int] { return iterable.WrapIntSlice(s) })
 		return drive(k, r, func(v int) int { return v }, func(v int) string { return fmt.Sprint(v) }, st)
-	case kindOwn, kindNR1, kindNR2, kindNR12, kindNested:
+	case kindOwn, kindNR1, kindNR2, kindNR12, kindNested, kindPh1, kindPh2, kindPh12, kindPhNested:
+		if phantomKind(k.Kind) && k.Phantom == 0 {
+			return &vio{sig: "harness/bad-case", what: "kind " + k.Kind + " without a phantom tail"}
+		}
 		r := build[elem](k, func(src, idx, v int) elem { return elem{v, src, idx} }, func(e elem) int { return e.V },
-			func(s []elem) iterable.Iterator[elem] { return &sliceSrc[elem]{s: s} })
+			func(src int, s []elem) iterable.Iterator[elem] {
+				if phantomInput(k.Kind, src) {
+					return &tailSrc[elem]{sliceSrc: sliceSrc[elem]{s: s}, phantom: k.Phantom, imparity: &st.imparity}
+				}
+				return &sliceSrc[elem]{s: s}
+			})
 		return drive(k, r, func(e elem) int { return e.V }, func(e elem) string { return e.String() }, st)
 	}
 	return &vio{sig: "harness/unknown-kind", what: "unknown kind " + k.Kind}
 }
 
 func drive[E comparable](k kase, r *rig[E], val func(E) int, show func(E) string, st *stats) (res *vio) {
-	short := len(k.A) <= 3 && len(k.B) <= 3 && k.Kind != kindNested
+	short := len(k.A) <= 3 && len(k.B) <= 3 && k.Kind != kindNested && k.Kind != kindPhNested
 	sortedExpect := (k.Sel == "lt" || k.Sel == "le") && isSorted(k.A) && isSorted(k.B) && isSorted(k.C)
 	var (
-		section   = "word" // word / drain / end
+		section   = "word" // word / drain / end / again (Reset of the exhausted mixer) / drain2 / end2
 		callIdx   int
 		curOp     = "Init"
 		posBefore [3]int
@@ -532,28 +601,42 @@ func drive[E comparable](k kase, r *rig[E], val func(E) int, show func(E) string
 	if !k.Drain || stop {
 		return nil
 	}
-	// drain: the rest of the merge, HasNext before every second Next
-	for n := 0; ; n++ {
-		if _, ok := r.model.peek(); !ok {
-			break
-		}
-		if n > r.total {
-			return &vio{sig: "harness/drain-overrun", what: "the model did not end"}
-		}
-		if n%2 == 0 {
-			if v := step('H', "drain", n); v != nil {
+	// drain: the rest of the merge, HasNext before every second Next; then the exhausted mixer: Next
+	// gives ok=false and HasNext false, repeatedly, in every order
+	drain := func(secDrain, secEnd string) *vio {
+		for n := 0; ; n++ {
+			if _, ok := r.model.peek(); !ok {
+				break
+			}
+			if n > r.total {
+				return &vio{sig: "harness/drain-overrun", what: "the model did not end"}
+			}
+			if n%2 == 0 {
+				if v := step('H', secDrain, n); v != nil {
+					return v
+				}
+			}
+			if v := step('N', secDrain, n); v != nil {
 				return v
 			}
 		}
-		if v := step('N', "drain", n); v != nil {
-			return v
+		for i, op := range []byte("NHHNNH") {
+			if v := step(op, secEnd, i); v != nil {
+				return v
+			}
 		}
+		return nil
 	}
-	// the exhausted mixer: Next gives ok=false and HasNext false, repeatedly, in every order
-	for i, op := range []byte("NHHNNH") {
-		if v := step(op, "end", i); v != nil {
+	if v := drain("drain", "end"); v != nil {
+		return v
+	}
+	if phantomKind(k.Kind) && r.resettable {
+		// the inputs' tails have been consumed: Reset restarts the merge - and the tails - once more
+		st.secondPass++
+		if v := step('R', "again", 0); v != nil {
 			return v
 		}
+		return drain("drain2", "end2")
 	}
 	return nil
 }
@@ -702,18 +785,24 @@ func endingWords(body string, term byte, n int) []string {
 }
 
 type unit struct {
-	a, b  []int
-	sel   string
-	kind  string
-	words []string
+	a, b    []int
+	sel     string
+	kind    string
+	words   []string
+	phantom int
 }
+
+// phantomModes: the enumerated lengths of the phantom tail (failing Next calls during which HasNext
+// stays true; -1 = for ever).
+var phantomModes = []int{1, -1}
 
 func TestCheck(t *testing.T) {
 	run := report.New("C18", "exploration")
 	defer run.Finish(t)
-	run.Rule("enumerated part: distinct (input pair, selector, source kind, model state (i,j) before the call, operation) transitions that were executed on the real mixer and compared with the two-pointer reference merge; plus distinct (slice, position, operation) transitions of WrapIntSlice; plus one per distinct random long case (hash of inputs, selector, kind and call pattern)")
+	run.Rule("enumerated part: distinct (input pair, selector, source kind, model state (i,j) before the call, operation) transitions that were executed on the real mixer and compared with the two-pointer reference merge; plus distinct (slice, position, operation) transitions of WrapIntSlice; plus one per distinct random long case (hash of inputs, selector, kind and call pattern). Source kinds include inputs whose HasNext stays true after the last element while Next gives (zero,false) - once, or for ever - in either or both positions and below a nested mixer; for these the exhausted mixer is also Reset and read completely a second time")
 	run.Assume("elements of the harness sources carry (value, input, position) so that the input a tied head was taken from is observable; the selector only looks at the value")
 	run.Assume("Reset on a mixer with an input that has no Reset method is called and its outcome recorded but not judged; the pattern ends there (the statement covers Reset only when both inputs can be reset)")
+	run.Assume("the elements of an input are what its Next hands out with ok=true (Iterator contract in iterator.go: HasNext may be true while the following Next gives default values); the phantom-tail inputs show this imparity only after their last element, never between two elements")
 	run.Assume("the value returned together with ok=false is not judged; Close of the mixer is not part of the statement and is not called; the number of look-ahead elements is recorded, not judged")
 
 	if p := os.Getenv("VERIF_REPLAY"); p != "" {
@@ -728,6 +817,7 @@ func sweep(run *report.Run, depth, intitDepth, randomCases int) {
 	seqs := shortSeqs()
 	full := words("HNR", depth)
 	nr := endingWords("HN", 'R', depth)
+	phWords := words("HNR", depth-2) // each followed by drain, end probe, Reset, second drain and end probe
 	ii := endingWords("HNR", 'C', intitDepth)
 
 	var total stats
@@ -766,7 +856,7 @@ func sweep(run *report.Run, depth, intitDepth, randomCases int) {
 					localDistinct += int64(len(seen))
 				} else {
 					for _, w := range u.words {
-						k := kase{A: u.a, B: u.b, Sel: u.sel, Kind: u.kind, Word: w, Drain: true}
+						k := kase{A: u.a, B: u.b, Sel: u.sel, Kind: u.kind, Word: w, Drain: true, Phantom: u.phantom}
 						run.Eval(1)
 						if v := runCase(k, &us); v != nil && !v.dup {
 							run.Violation(v.sig, v.what, k)
@@ -789,11 +879,16 @@ func sweep(run *report.Run, depth, intitDepth, randomCases int) {
 		for _, b := range seqs {
 			nPairs++
 			for _, sel := range selNames {
-				units <- unit{a, b, sel, kindWIS, full}
-				units <- unit{a, b, sel, kindOwn, full}
-				units <- unit{a, b, sel, kindNR1, nr}
-				units <- unit{a, b, sel, kindNR2, nr}
-				units <- unit{a, b, sel, kindNR12, nr}
+				units <- unit{a, b, sel, kindWIS, full, 0}
+				units <- unit{a, b, sel, kindOwn, full, 0}
+				units <- unit{a, b, sel, kindNR1, nr, 0}
+				units <- unit{a, b, sel, kindNR2, nr, 0}
+				units <- unit{a, b, sel, kindNR12, nr, 0}
+				for _, ph := range phantomModes {
+					units <- unit{a, b, sel, kindPh1, phWords, ph}
+					units <- unit{a, b, sel, kindPh2, phWords, ph}
+					units <- unit{a, b, sel, kindPh12, phWords, ph}
+				}
 			}
 		}
 	}
@@ -808,21 +903,24 @@ func sweep(run *report.Run, depth, intitDepth, randomCases int) {
 		"words_resettable_kinds":          len(full),
 		"words_non_resettable_kinds":      len(nr),
 		"words_intit":                     len(ii),
+		"words_phantom_tail_kinds":        len(phWords),
+		"phantom_tail_modes":              phantomModes,
 		"intit_depth":                     intitDepth,
-		"bounding":                        "none: every word over {HasNext,Next,Reset} of the full depth on every pair x selector for the kinds wis and own; for the non-resettable kinds every word over {HasNext,Next} up to the depth, optionally ended by one Reset; every word is followed by a drain to the end and six calls on the exhausted mixer",
-		"source_kinds":                    []string{kindWIS, kindOwn, kindNR1, kindNR2, kindNR12},
+		"bounding":                        "none: every word over {HasNext,Next,Reset} of the full depth on every pair x selector for the kinds wis and own; for the non-resettable kinds every word over {HasNext,Next} up to the depth, optionally ended by one Reset; every word is followed by a drain to the end and six calls on the exhausted mixer; for the phantom-tail kinds every word over {HasNext,Next,Reset} of depth-2, each also followed by a Reset of the exhausted mixer and a second drain and end probe",
+		"source_kinds":                    []string{kindWIS, kindOwn, kindNR1, kindNR2, kindNR12, kindPh1, kindPh2, kindPh12},
 		"enumerated_distinct_transitions": distinct,
 	})
 	run.Sample(kase{A: []int{1, 2}, B: []int{1, 3}, Sel: "le", Kind: kindOwn, Word: full[len(full)/2], Drain: true})
 	run.Sample(kase{A: []int{3, 1}, B: []int{}, Sel: "false", Kind: kindNR2, Word: nr[len(nr)/3], Drain: true})
 	run.Sample(kase{A: []int{1, 2, 3}, Kind: kindIntIt, Word: ii[len(ii)/2]})
+	run.Sample(kase{A: []int{1, 3}, B: []int{2}, Sel: "le", Kind: kindPh1, Word: phWords[len(phWords)/2], Drain: true, Phantom: 1})
 
 	// random long inputs
 	var rwg sync.WaitGroup
 	sem := make(chan struct{}, runtime.NumCPU())
-	kinds := []string{kindWIS, kindOwn, kindNested}
+	kinds := []string{kindWIS, kindOwn, kindNested, kindPh1, kindPh2, kindPh12, kindPhNested}
 	var rstats stats
-	var sortedCases, unsortedCases int64
+	var sortedCases, unsortedCases, phantomCases int64
 	for i := 0; i < randomCases; i++ {
 		rwg.Add(1)
 		sem <- struct{}{}
@@ -839,6 +937,9 @@ func sweep(run *report.Run, depth, intitDepth, randomCases int) {
 			}
 			mu.Lock()
 			rstats.merge(&us)
+			if phantomKind(k.Kind) {
+				phantomCases++
+			}
 			if isSorted(k.A) && isSorted(k.B) && isSorted(k.C) {
 				sortedCases++
 			} else {
@@ -855,6 +956,7 @@ func sweep(run *report.Run, depth, intitDepth, randomCases int) {
 	run.Add("random_cases", int64(randomCases))
 	run.Add("random_cases_sorted_inputs", sortedCases)
 	run.Add("random_cases_unsorted_inputs", unsortedCases)
+	run.Add("random_cases_phantom_tail_inputs", phantomCases)
 	run.Add("random_calls", rstats.calls[0]+rstats.calls[1]+rstats.calls[2])
 	run.Add("calls_HasNext", total.calls[0])
 	run.Add("calls_Next", total.calls[1])
@@ -866,11 +968,13 @@ func sweep(run *report.Run, depth, intitDepth, randomCases int) {
 	run.Add("reset_non_resettable_panic", total.resetNR[2])
 	run.Add("max_lookahead_elements", total.maxAhead)
 	run.Add("input_resets_outside_mixer_Reset", total.lateResets)
+	run.Add("input_Next_false_right_after_HasNext_true", total.imparity)
+	run.Add("second_passes_after_Reset_of_exhausted_mixer", total.secondPass)
 	run.Add("intit_calls", total.intitCalls)
 	run.Add("intit_close_errors", total.closeErr)
 	run.Add("repeated_findings_not_reported_again", total.repeats)
-	if total.calls[2] == 0 || total.exhausted == 0 || total.intitCalls == 0 {
-		run.Inconclusive("a call class was never executed (Reset / exhausted mixer / WrapIntSlice)")
+	if total.calls[2] == 0 || total.exhausted == 0 || total.intitCalls == 0 || total.imparity == 0 || total.secondPass == 0 {
+		run.Inconclusive("a call class was never executed (Reset / exhausted mixer / WrapIntSlice / input with HasNext-Next imparity / second pass)")
 	}
 }
 
@@ -905,7 +1009,10 @@ func randomCase(seed int64, i int, kind, sel string) kase {
 	}
 	k.A, k.B = gen(), gen()
 	total := len(k.A) + len(k.B)
-	if kind == kindNested {
+	if phantomKind(kind) {
+		k.Phantom = []int{1, 2, 5, -1}[rng.Intn(4)]
+	}
+	if kind == kindNested || kind == kindPhNested {
 		k.C = gen()
 		total += len(k.C)
 	}
